@@ -93,6 +93,24 @@ def r1_keep_set(ctx, roles: DeleteRoles):
         )
     else:
         ctx.ok('C02.R1', site, f'every path through the snapshot-load loop raises, selects the snapshot, or adds its chunks to the keep set ({outcomes})')
+    # the keep set only ever grows: while snapshots are still being loaded, "not a deletion candidate so far" says nothing about
+    # the candidates added by a later snapshot - a keep set that is cut down in between forgets chunks that remaining snapshots use
+    shrink = []
+    for n in walk_local(fn.node):
+        if isinstance(n, ast.Call) and isinstance(n.func, ast.Attribute) and isinstance(n.func.value, ast.Name) and n.func.value.id == K and n.func.attr in ('intersection_update', 'difference_update', 'symmetric_difference_update', 'discard', 'remove', 'pop', 'clear'):
+            shrink.append(n)
+        if isinstance(n, ast.AugAssign) and isinstance(n.target, ast.Name) and n.target.id == K and isinstance(n.op, (ast.BitAnd, ast.Sub, ast.BitXor)):
+            shrink.append(n)
+        if isinstance(n, ast.Assign) and any(isinstance(t, ast.Name) and t.id == K for t in n.targets) and any(is_within(n, roles.loop) for _ in [0]) and is_within(n, roles.loop):
+            shrink.append(n)
+    ctx.check(
+        not shrink,
+        'C02.R1',
+        f'{func_label(fn)}|keep-set-only-grows',
+        loc(fn, shrink[0]) if shrink else site,
+        f'delete_snapshots: the keep set `{K}` is only ever extended',
+        f'delete_snapshots: the keep set `{K}` is reduced / rebound (`{src(enclosing_stmt(shrink[0]), 70) if shrink else ""}`): chunks of remaining snapshots drop out of it before all snapshots are loaded, and are then deleted',
+    )
     return sub
 
 
